@@ -4,8 +4,8 @@ M10 — `ErrorHandling` (mindsdb_sql/__init__.py) and `MindsDBLexer.error`
 (parser/dialects/mindsdb/lexer.py) as total functions.  Core Lean only.
 
 Python `str` = `List Char` (`len` = number of code points = `List.length`).
-A token record is what the code reads from a sly `Token`: `type`, `value` (as rewritten by the
-lexer action), `lineno`, `index` (absolute offset in the text, NOT a column).
+A token record is what the code reads from a sly `Token`: `type`, `value` (the token's source text since repo 5f4cdd1), `lineno`
+(the line on which the token starts, repo bd184d7), `index` (absolute offset in the text, NOT a column).
 -/
 namespace MindsVerif.Err
 
@@ -88,8 +88,8 @@ def splitLines : List Char → List (List Char)
     | [] => [[]]   -- unreachable
     | l :: ls => if c = '\n' then [] :: l :: ls else (c :: l) :: ls
 
-/-! #### variant of the first loop after `fixes/C19_6.diff` (a value is placed part by part, one
-`'\n'`-separated part per line); `split = false` is the code without that change.  The extractor
+/-! #### variant of the first loop of the live code, repo 2c1674c (a value is placed part by part, one
+`'\n'`-separated part per line); `split = false` is the code before that change (history).  The extractor
 sets the flag from the behaviour of the live `error_location` (`Gen.ErrLex.splitValues`). -/
 
 /-- `place` with the index and the text given explicitly -/
